@@ -8,6 +8,38 @@ ALL = ["C%02d" % i for i in range(1, 20)]
 
 # id -> dict(category, technique, text, note, engine, design)
 CHECKS = {
+    "C12": dict(
+        category="exploration",
+        engine="E4 + H3",
+        technique="bounded exhaustive input enumeration: all single-bit flips / truncations / extensions of every family frame against the real DataView::using with an independent bitwise CRC-32 reference, plus round trips through the real client/handler over the in-process transport",
+        text="Every value of a message family (fixed, text/bytes/option, nested; payload sizes from a boundary grid up to 64 KiB, 1 MiB in thorough) is sent through the real RpcClient -> handle_connection -> handler and back and compared on both sides; every ErrorCode x message text comes back unchanged; for every frame up to 300 (quick) / 1100 (thorough) bytes ALL single-bit flips, ALL truncations, 12 extensions and every CRC-valid body shorter than the archived root are judged by DataView::using exactly as the reference predicate demands, and the same hostile frames handed to a typed handler are refused as InvalidPayload without the handler running or anything panicking.",
+        note="In-process transport: hyper/h2 chunking bypassed (single-chunk bodies). Debug assertions on, so an out-of-range root position is a panic, not UB.",
+        design="DESIGN.md section 3, C12",
+    ),
+    "C13": dict(
+        category="model_checking",
+        engine="E1 + H3",
+        technique="exhaustive enumeration of all add/remove sequences (no state merging) on a real Server, probing every (service, message) pair through real clients after every event, against a set-of-names reference model",
+        text="All 6^5 (quick) / 6^7 (thorough) sequences over {add, remove} x three services (two sharing a message type, one with two message types), including re-adding and removing absent services; after every event four probes through real RpcClients must be served by exactly the right handler iff the reference set says registered, else refused as ServiceUnavailable.",
+        note="Dispatch through the in-process transport (URI construction, handler lookup, status encoding are production code).",
+        design="DESIGN.md section 3, C13",
+    ),
+    "C15": dict(
+        category="model_checking",
+        engine="E1 + H4",
+        technique="explicit-state BFS to closure over selector cursor states per layout (all levels x all scripted RNG outcomes) on the real DCAwareSelector, plus exhaustive layout-pair sequences on the real selector actor",
+        text="For every layout up to 3x3 (quick) / 4x4 (thorough) data centres x nodes and every local node position the cursor-state graph is explored to closure (no length bound): every level, every outcome of every random draw; each result is judged: only live members, never the local node, no duplicates, enough (exactly n for One/Two/Three), per-DC majorities for the quorum levels, NotEnoughNodes only when really too few. Actor level: all ordered pairs of sub-layouts with selections before and after set_nodes: nothing outside the new layout is ever returned (cache included).",
+        note="Random draws scripted through the cfg(datacake_verif) RNG shadow; raw values chosen so that every outcome for ranges <= 4 occurs. Layouts always contain the local node.",
+        design="DESIGN.md section 3, C15",
+    ),
+    "C17": dict(
+        category="model_checking",
+        engine="E1 refinement",
+        technique="explicit-state BFS over the reference model's state graph; every transition re-executed on a fresh real backend (MemStore, SQLite memory/file, LMDB) by shortest-path replay, full read surface compared (refinement check); reopen as a transition",
+        text="Model = keyspace -> id -> (stamp, live bytes | tombstone). Alphabet: 2 keyspaces, ids {1, 2^63+5}, payloads {empty, x, 64 KiB}, 3 non-monotonic stamps, put / multi_put (incl. same id twice) / mark_as_tombstone (incl. absent ids and empty keyspaces) / mark_many / remove_tombstones (tombstoned ids only) / close-and-reopen. Every transition is executed on the real backend and get, multi_get, iter_metadata, keyspace list (and raw SQLite rows) must equal the model. Closure of the reduced alphabet on MemStore/SQLite (quick), full alphabet and LMDB/SQLite-file closure with reopen (thorough).",
+        note="I/O failures and torn writes are not modelled. Keyspace-list oracle allows empty keyspaces to be listed or not.",
+        design="DESIGN.md section 3, C17",
+    ),
     "C03": dict(
         category="model_checking",
         engine="E1 Layer A",
